@@ -27,7 +27,10 @@ static void try_buf(const uint8_t buf[32], unsigned mask, struct res *r, uint64_
     }
     if (st == POLYSEED_OK) {
         uint8_t rawb[40] __attribute__((aligned(16))); uint8_t *back = rawb + 1 + (id >> 3) % 3; obs o; char why[200];
+        /* what store writes is a function of the seed alone: half of the cases store with every user feature disabled */
+        if (id & 4) polyseed_enable_features(0);
         polyseed_store(d, back); r->calls++;
+        if (id & 4) polyseed_enable_features((id & 1) ? (mask | 0xFFFFFFF8u) : mask);
         observe(d, 5, &o); r->calls += 12;
         int ok = !memcmp(back, buf, 32) && obs_matches_ref(&o, &want_s, 5, why, sizeof why);
         polyseed_free(d);
@@ -110,6 +113,11 @@ static void work_crypted(long lo, long hi, struct res *r, void *arg) {
         for (int i = 0; i < 32; i++) E.mask[i] = (uint8_t)(0x6D * (i + 1) + mv); E.mask[18] = (uint8_t)mv;
         rseed want = s; ref_crypt(&want, E.mask); polyseed_crypt(d, "pw"); r->calls++;
         if (twice) { uint8_t m2[32]; for (int i = 0; i < 32; i++) m2[i] = (uint8_t)(0xC1 ^ (i * 5)); m2[18] = (uint8_t)(mv ^ 0xFF); memcpy(E.mask, m2, 32); ref_crypt(&want, m2); polyseed_crypt(d, "other"); r->calls++; }
+        /* ... and, for every other case, of seeds that additionally went through a phrase (encode, decode_explicit with a non-zero coin) */
+        if (x & 1) { int li = (int)(x % R_NLANG); unsigned coin = 1 + (unsigned)(x * 37) % 2047; polyseed_str ph; polyseed_encode(d, polyseed_get_lang(li), (polyseed_coin)coin, ph); polyseed_data *d2 = NULL;
+            int ds = polyseed_decode_explicit(ph, (polyseed_coin)coin, polyseed_get_lang(li), &d2); r->calls += 2;
+            if (ds != POLYSEED_OK) { res_viol(r, "c06:rt-decode", "", "a seed after the password operation does not decode from its own %s phrase (status %d)", RL[li].code, ds); polyseed_free(d); continue; }
+            polyseed_free(d); d = d2; }
         uint8_t st[32], exp[32]; polyseed_store(d, st); polyseed_free(d); ref_storage(&want, exp); r->calls += 2;
         r->digest ^= mix64((uint64_t)x + (7ull << 40), st[28] | st[30] << 8 | st[31] << 16);
         char h[65], rep[100]; hex(st, 32, h); sprintf(rep, "case %s 7", h);
